@@ -230,6 +230,10 @@ def scan_assumptions(G):
                 trusted.append('%s: %s' % (what, line[:80]))
         else:
             f = _fn_at(G, off)
+            if 'verif-domain-assumption' in line:
+                dm = re.search(r'assume\((.*)\); /\* verif-domain-assumption (\S+): (.*?) \*/', line)
+                trusted.append('input-domain assumption %s in %s: %s -- %s' % (dm.group(2) if dm else '?', f[2] if f else '?', dm.group(1) if dm else line[:80], dm.group(3) if dm else ''))
+                continue
             if f and f[4] == 'assumed':
                 trusted.append('assumed contract (external_body) on real function %s' % f[2])
                 continue
@@ -403,6 +407,36 @@ def check_property(pid, tier):
                 else:
                     for e in fb:
                         undecided += e.get('undecided', [])
+        if undecided:
+            # last resort for a unit Verus could not decide (lost anchor / front-end error on changed code): the unit's
+            # registered replay tests (bounded, concrete inputs on the real code).  A failing test is a violation with a
+            # failing input; passing tests decide nothing and the unit stays undecided.
+            import replay
+            for m in replay._registry(VERIF):
+                u = m.get('unit')
+                if not u or not any(x.startswith(u + ':') for x in undecided):
+                    continue
+                tests = m.get('tests', {})
+                if tests and not any(pid in ps for ps in tests.values()):
+                    continue
+                try:
+                    ran, fails, tail = replay.run_module(m, REPO, VERIF)
+                except Exception as e:  # noqa
+                    ran, fails, tail = False, [], str(e)
+                fails = [f for f in fails if pid in tests.get(f[0], [pid])]
+                if not fails:
+                    continue
+                fl = dict(ob='%s.replay.%s' % (u, fails[0][0]), fn=fails[0][0], kind='replay-bounded',
+                          message='replay test failed on the real code: %s (at %s)' % (fails[0][1], fails[0][2]),
+                          text='registered replay test %s of %s' % (fails[0][0], m['file']), serves=[pid],
+                          rendered='\n'.join('%s: %s (%s)' % f for f in fails), unit=u,
+                          cex=[dict(test=t, message=msg, at=at) for (t, msg, at) in fails])
+                extra.append(dict(obligations={}, failed=[fl], undecided=[], trusted=[],
+                                  bounded=[dict(harness='replay:' + m['file'], bound='the concrete inputs of the test module', status='failed', claim=fl['text'])],
+                                  backend=dict(unit='replay:' + m['file'], backend='cargo test (bounded stand-in)', wall_s=None, cmd='cargo test %s' % m['filter'], complete=False)))
+                for x in [x for x in undecided if x.startswith(u + ':')]:
+                    print('NOTE: property=%s Verus could not decide (%s); the replay tests of the unit found a failing input' % (pid, x.split('\n')[0][:200]))
+                undecided = [x for x in undecided if not x.startswith(u + ':')]
         violations = []
         known_hits = []
         total_obs = {}
